@@ -83,4 +83,123 @@ structure SInv (c : Cfg) (x : Seq) : Prop where
 theorem sinv_init (c : Cfg) : SInv c Seq.init := by
   constructor <;> simp [Seq.init, Seq.pub, newOf, excOf, pcOK] <;> grind
 
+theorem SInv.no_self (h : SInv c x) (a : Nat) (ha : x.pub a) : x.next a ≠ a ∨ a = 0 := by
+  have := h.fwd a ha; have := h.irr a; grind
+
+/-- a live node that has a live node after it in the history order has a successor -/
+theorem SInv.pred_lt (h : SInv c x) {a b : Nat} (ha : x.st a = .live) (hb : x.st b = .live)
+    (hab : x.bef a b = true) : x.next a ≠ x.next b ∨ x.next a = 0 := by
+  have h1 := h.live_skip a b ha hb hab
+  have h2 := h.fwd b (Or.inl hb)
+  have h3 := h.irr b
+  have h4 := h.trans b (x.next b) b
+  grind
+
+theorem SInv.pred_unique (h : SInv c x) {a b : Nat} (ha : x.st a = .live) (hb : x.st b = .live)
+    (hn : x.next a = x.next b) (hne : x.next a ≠ 0) : a = b := by
+  apply Classical.byContradiction; intro hab
+  have t := h.total a b (Or.inl ha) (Or.inl hb) hab
+  have f1 := h.head_first a (Or.inl ha)
+  have f2 := h.head_first b (Or.inl hb)
+  have p1 := @SInv.pred_lt c x h a b ha hb
+  have p2 := @SInv.pred_lt c x h b a hb ha
+  grind
+
+theorem SInv.last_unique (h : SInv c x) {a b : Nat} (ha : x.st a = .live) (hb : x.st b = .live)
+    (hna : x.next a = 0) (hnb : x.next b = 0) : a = b := by
+  apply Classical.byContradiction; intro hab
+  have t := h.total a b (Or.inl ha) (Or.inl hb) hab
+  have f1 := h.head_first a (Or.inl ha)
+  have f2 := h.head_first b (Or.inl hb)
+  have p1 := h.live_skip a b ha hb
+  have p2 := h.live_skip b a hb ha
+  grind
+
+/-- steps that neither publish nor unlink: everything about published nodes is unchanged -/
+theorem sinv_frame {c : Cfg} {x x' : Seq} (h : SInv c x)
+    (hst : ∀ a, x.pub a ∨ x'.pub a → x'.st a = x.st a)
+    (hnext : ∀ a, x.pub a → x'.next a = x.next a)
+    (hbef : x'.bef = x.bef) (hhist : x'.hist = x.hist) (hpubS : x'.pubS = x.pubS) (hdeadS : x'.deadS = x.deadS)
+    (htick : x.tick ≤ x'.tick)
+    (hdata : ∀ a, x.pub a → x.data a = true → x'.data a = true)
+    (hprev : ∀ a, x'.st a = .live → (a ≠ 0 ∨ c.hl = false) → excOf x' ≠ some a →
+      x'.st (x'.prev a) = .live ∧ x'.next (x'.prev a) = a)
+    (hpriv : ∀ a, x'.st a = .priv ↔ newOf x'.pc = some a)
+    (hpc : pcOK c x') : SInv c x' := by
+  have e1 : ∀ a, x'.pub a ↔ x.pub a := by
+    intro a; constructor
+    · intro hp; have := hst a (Or.inr hp); simp only [Seq.pub] at *; grind
+    · intro hp; have := hst a (Or.inl hp); simp only [Seq.pub] at *; grind
+  have e2 : ∀ a, x'.st a = .live ↔ x.st a = .live := by
+    intro a; constructor
+    · intro hp; have := hst a (Or.inr (Or.inl hp)); grind
+    · intro hp; have := hst a (Or.inl (Or.inl hp)); grind
+  have e3 : ∀ a, x'.st a = .dead ↔ x.st a = .dead := by
+    intro a; constructor
+    · intro hp; have := hst a (Or.inr (Or.inr hp)); grind
+    · intro hp; have := hst a (Or.inl (Or.inr hp)); grind
+  have e4 : ∀ a, x.st a = .live → x'.next a = x.next a := fun a ha => hnext a (Or.inl ha)
+  have e5 : ∀ a, x.st a = .dead → x'.next a = x.next a := fun a ha => hnext a (Or.inr ha)
+  constructor
+  case head_live => rw [e2]; exact h.head_live
+  case irr => rw [hbef]; exact h.irr
+  case trans => rw [hbef]; exact h.trans
+  case total => intro a b; rw [hbef, e1, e1]; exact h.total a b
+  case dom => intro a b; rw [hbef, e1, e1]; exact h.dom a b
+  case head_first => intro b; rw [hbef, e1]; exact h.head_first b
+  case hist_iff => intro a; rw [hhist, e1]; exact h.hist_iff a
+  case fwd => intro a; rw [hbef, e1]; intro hp; rw [hnext a hp]; exact h.fwd a hp
+  case live_next =>
+    intro a; rw [e2]; intro ha; rw [e4 a ha, e2]; exact h.live_next a ha
+  case live_skip =>
+    intro a y; rw [e2, e2, hbef]; intro ha; rw [e4 a ha]; exact h.live_skip a y ha
+  case dead_next =>
+    intro a; rw [e3]; intro ha; rw [e5 a ha, e2, e3, hdeadS]; exact h.dead_next a ha
+  case dead_skip =>
+    intro a y; rw [e3, e1, hbef, hpubS, hdeadS, e2]; intro ha; rw [e5 a ha]; exact h.dead_skip a y ha
+  case pub_le => intro a; rw [e1, hpubS]; intro hp; have := h.pub_le a hp; omega
+  case dead_le => intro a; rw [e3, hpubS, hdeadS]; intro hp; have := h.dead_le a hp; omega
+  case data_ok => intro a; rw [e1]; intro hp h0; exact hdata a hp (h.data_ok a hp h0)
+  case prev_ok => exact hprev
+  case priv_iff => exact hpriv
+  case pc_ok => exact hpc
+
+
+theorem sinv_d2 (c : Cfg) (hb : c.bug = .none) {x x' : Seq} (h : SInv c x) (e : Nat) (hpc : x.pc = .d2 e)
+    (st : ustep c x .st = some x') : SInv c x' := by
+  simp [ustep, hpc, hb] at st
+  subst st
+  have hk := h.pc_ok
+  simp only [pcOK, hpc] at hk
+  obtain ⟨he0, hel, hk⟩ := hk
+  have hq : x.next e ≠ 0 → x.st (x.next e) = .live ∧ x.bef e (x.next e) = true :=
+    fun hn => ⟨h.live_next e hel hn, h.fwd e (Or.inl hel) hn⟩
+  have hne : x.next e ≠ e := by have := h.irr e; grind
+  have hp := h.prev_ok e hel (Or.inl he0) (by simp [excOf, hpc]; exact hne)
+  have hpe : x.prev e ≠ e := by grind
+  have hbpe : x.bef (x.prev e) e = true := by have := h.fwd (x.prev e) (Or.inl hp.1); grind
+  have htr := h.trans
+  constructor
+  case head_live => have := h.head_live; simp [upd]; grind
+  case irr => exact h.irr
+  case trans => exact h.trans
+  case total => have := h.total; simp [upd, Seq.pub] at *; grind
+  case dom => have := h.dom; simp [upd, Seq.pub] at *; grind
+  case head_first => have := h.head_first; simp [upd, Seq.pub] at *; grind
+  case hist_iff => have := h.hist_iff; simp [upd, Seq.pub] at *; grind
+  case fwd => have := h.fwd; simp [upd, Seq.pub] at *; grind
+  case live_next =>
+    have := h.live_next; have pu := @SInv.pred_unique c x h
+    simp [upd] at *; intro a; have := @pu a (x.prev e); grind
+  case live_skip => have := h.live_skip; simp [upd] at *; grind
+  case dead_next => have := h.dead_next; have := h.dead_le; simp [upd] at *; grind
+  case dead_skip => have := h.dead_skip; have := h.live_skip; have := h.dead_le; have := h.irr; simp [upd, Seq.pub] at *; grind
+  case pub_le => have := h.pub_le; simp [upd, Seq.pub] at *; grind
+  case dead_le => have := h.dead_le; have := h.pub_le; simp [upd, Seq.pub] at *; grind
+  case data_ok => have := h.data_ok; simp [upd, Seq.pub] at *; grind
+  case prev_ok => have := h.prev_ok; simp [upd, excOf, hpc] at *; grind
+  case priv_iff => have := h.priv_iff; simp [upd, newOf, hpc] at *; grind
+  case pc_ok => simp [pcOK]
+
+
 end UrcuVerif.RcuList
